@@ -6,7 +6,7 @@
 (*   gen   one step of a key-generation history (C14)                      *)
 (*   life  one step of a key life-cycle history (C16)                      *)
 (***************************************************************************)
-EXTENDS CliContract, TLC, Json, IOUtils, SequencesExt
+EXTENDS CliContract, PromptContract, TLC, Json, IOUtils, SequencesExt
 
 Rec == ndJsonDeserialize(IOEnv.TRACE)
 N   == Len(Rec)
@@ -63,8 +63,25 @@ LifeChecks(e) ==
   \cup Flag(e.pub_matches, "C16_extracted_public_key_differs")
   \cup Flag(~e.secret_leaked, "C16_private_key_in_output")
 
+\* interactive password entry on a terminal: the outcome is the contract's function of the typed script
+TtyChecks(e) ==
+  LET x == PExpected(e.cmd, e.script) IN
+  Flag(x.res = e.exp.res /\ x.pw = e.exp.pw, "TOOL_prompt_expectation")
+  \cup Flag(~e.timed_out, "C09_hang")
+  \cup (IF x.res = "ok"
+        THEN Flag(e.rc = 0, "C12_exit_status_untruthful")
+             \cup Flag(e.out = "full", "C12_result_incomplete_or_wrong")
+             \cup Flag(e.pw_ok, "C16_relocked_under_a_password_other_than_the_confirmed_one")
+        ELSE IF x.res = "error"
+        THEN Flag(e.rc = 1 /\ e.errline, "C12_exit_status_untruthful")
+             \cup Flag(e.out \in {"untouched", "absent", "none"}, "C13_output_created_or_clobbered_by_failed_command")
+        ELSE \* interrupted at a prompt: the user backed out before any output existed
+             Flag(e.rc # 0, "C12_exit_status_untruthful")
+             \cup Flag(e.out \in {"untouched", "absent", "none"}, "C13_output_created_or_clobbered_by_failed_command"))
+
 Checks(e) ==
   CASE e.ev = "cli"  -> CliChecks(e)
+    [] e.ev = "tty"  -> TtyChecks(e)
     [] e.ev = "argv" -> ArgvChecks(e)
     [] e.ev = "gen"  -> GenChecks(e)
     [] e.ev = "life" -> LifeChecks(e)
